@@ -26,6 +26,34 @@ T = {
   note='Availability-check scheduling discipline taken from the statement; callbacks enforce at-most-once inside the harness so a re-entrant loop becomes a violation, not a hang.', ref='4 C10'),
 }
 
+def e3(text, note, ref, tech):
+    return dict(engine='E3 linefuzz', technique='property-based testing: Hypothesis-generated whole production models run through the real event queue under a step monitor; ' + tech,
+                text=text, note=note, ref=ref)
+
+
+T.update({
+ 'C02': e3('Generated search over whole models with an always-on census after every executed event (every generated leaf part exactly once in devices / sinks / reported losses, slots, budget).',
+           'Part locations read from the private slots named by the anchors; losses = shutdown-callback reports and failure-log entries.', '4 C02', 'oracle = whole-system part census (invariant over the history)'),
+ 'C03': e3('Generated search with a counterfactual probe at every quiescent instant: each ready part is offered to its downstreams on a deep copy of the whole System; zero-time livelock watch (20000 events without clock progress) and per-case watchdog for the "run returns" clause.',
+           'Liveness is decided as bounded safety; the probe assumes copy.deepcopy(System) behaves like the original; harness callbacks are inert during probes.', '4 C03', 'oracle = counterfactual probe on a deep copy + livelock/watchdog bound'),
+ 'C05': e3('Generated search, buffer-heavy and float-noise profiles; per buffer after every event: level == stored leaves <= capacity, FIFO prefix/suffix evolution, leave - arrive >= delay (exact on the grid, 2 ulp in Fraction arithmetic off the grid).',
+           'Reads Buffer._buffer/_part; tolerance 2 ulp(clock) calibrated in DESIGN 4 C05.', '4 C05', 'oracle = per-buffer invariants over the history'),
+ 'C06': e3('Generated search with interruptions (shutdowns, failures also while shut down, work orders, cycle-time changes in callbacks, one-shot offsets); a reference integrates operational time per device and demands finish exactly at the cycle time in effect at acceptance.',
+           'Operational intervals are taken from the shutdown/restored callbacks; exact on the dyadic grid.', '4 C06', 'oracle = reference operational-time integrator'),
+ 'C08': e3('Generated search over fan-out/fan-in, complementary gates, shared / re-entrant / chained / nested groups, block toggles, rewiring; route graph from the spec vs each part routing history, path stack, gate predicates, blocked inputs, collected order, idle-longest with admissible intervals.',
+           'Idle-longest is only alarmed when the receiver is younger than an able sibling under every admissible reading of idle-since.', '4 C08', 'oracle = route graph derived from the spec + validity predicates'),
+ 'C11': e3('Generated contention models (2-5 processors over 1-3 pools with capacity 0..2, capacity schedules, failures, work orders); after every event holdings == declared amounts while processing, pool usage == sum of holdings, failed/idle processors hold nothing, kept reservation on back-to-back parts.',
+           'Only processors reserve in these models; reads PartProcessor._reserved_resources.', '4 C11', 'oracle = per-event invariants on processors and pools'),
+ 'C13': e3('Generated interruption models; reference state machine per processor driven by observed callbacks; exact uptime / utilisation accounting after every event; lost part reported once to every shutdown callback and the failure log; callback registration order; default work order duration.',
+           'Three callbacks of each kind are registered by the harness; exact on the dyadic grid.', '4 C13', 'oracle = reference state machine + accounting integrator'),
+ 'C15': e3('Generated models (a quarter with trace=True); after every event last level/resource records equal the state, one record per receive/finish/supply/failure/work-order occurrence with the values read by the monitor at that moment; exported trace satisfies executed <= trace <= dispatched.',
+           'Occurrences are observed through library callbacks and a first-position receive callback; HOME is pointed at a scratch directory for the trace file.', '4 C15', 'oracle = occurrence log kept by the monitor vs simulation_data'),
+ 'C16': e3('Generated models with value added in finish and receive callbacks, batches, work-order costs; after every event value == start + sum(history), entry fields, source/sink/maintainer/batch/net identities with independently read part values.',
+           'Value at departure is read by the monitor before the hand-over event; values on the dyadic grid.', '4 C16', 'oracle = value identities over the history'),
+ 'C17': e3('Generated batching models (batch sources with mixed sizes incl. 0, chained batchers, un-batch/process/re-batch, gates, buffers, blocked consumers); arrival leaf sequence == departure sequence + leaves inside in order; exact batch sizes; no accept while an output waits.',
+           'Departures are what the next holding device receives from the batcher (receive callbacks).', '4 C17', 'oracle = sequence equality (arrivals vs departures) per batcher'),
+})
+
 DEFAULT_NA = 'check not built yet in this session (planned, see DESIGN section 4); not claimed until it exists and is silent on the tree'
 
 
@@ -67,6 +95,8 @@ def main():
              'kind_free_text': 'operation histories on a bare Environment vs reference queue model'},
             {'name': 'E2 rmmachine', 'path': 'engines/rmmachine.py', 'serves_properties': ['C09', 'C10'],
              'kind_free_text': 'operation histories on ResourceManager vs reference pool / waiting-list model'},
+            {'name': 'E3 linefuzz', 'path': 'engines/linefuzz.py', 'serves_properties': ['C02', 'C03', 'C05', 'C06', 'C08', 'C11', 'C13', 'C15', 'C16', 'C17'],
+             'kind_free_text': 'generated whole production models + step monitor (engines/lf_model.py, lf_monitor.py, e3gen.py)'},
         ],
         'checks': checks,
         'not_applicable': na,
